@@ -18,7 +18,18 @@ theorem zero_basic_total :
       !(kf.2.any (fun f => Generated.zeroBasicFlags.contains f)) && !Generated.zeroBasicKinds.contains kf.1)) = [] := by
   decide
 
+/-- no single-value type assertion of the front end, the planner or the generator targets a go/ast
+    node type: an unexpected (type-correct) spelling of a marker-function argument cannot make such an
+    assertion panic.  (Regenerated list of all `x.(T)` without comma-ok in parse.go, wire.go, analyze.go.) -/
+theorem no_ast_shape_assertions : astShapeAsserts = [] := by decide
+
 /-! ## non-vacuity -/
+
+/-- the filter recognises the assertion that defect D3 consisted of -/
+example : infixC "(*ast.".toList "processStructProvider: call.Args[0].(*ast.CallExpr)".toList = true := by decide
+
+example : (uncheckedAssertsParse ++ uncheckedAssertsWire ++ uncheckedAssertsAnalyze).length ≥ 10 := by decide
+
 
 example : copyDefaultPanics = true ∧ zeroDefaultPanics = true := by decide
 
